@@ -115,7 +115,7 @@ CLAIMED['C16'] = dict(
          'destination pixel written, erode <= src <= dilate, and dilate >= (erode <=) EVERY in-image neighbour under a non-zero structuring-element '
          'entry, for views up to 10^5 x 10^5 and kernels up to 1000 x 1000 (float32 and 8-bit channels). Otsu is a bounded native stand-in (UBSan).',
     note=TRUST + 'Median filter, adaptive threshold, opening/closing algebra and the existence half of the extremum (result is one of the inputs) are not covered; '
-         'known finding C16-otsu-empty (empty image) is carved out; view access is the ghost VIEW_READ/VIEW_WRITE model.',
+         'the empty-image case of threshold_optimal was a known finding until it was repaired (fixed entry in known_findings.json); view access is the ghost VIEW_READ/VIEW_WRITE model.',
     technique='function contracts and nested loop contracts with a ghost neighbour (CBMC DFCC) on extracted real bodies; bounded native stand-in for Otsu',
     design='4/C16')
 
